@@ -311,7 +311,7 @@ def load_code(path):
     """compile the *current* source of `path`; a content-addressed cache only avoids re-parsing identical text"""
     raw = open(path, "rb").read()
     h = hashlib.sha1(raw).hexdigest()
-    key = os.path.join(CACHE, "%s-%s-%s.bin" % (h, _self_hash(), sys.version_info[1]))
+    key = os.path.join(CACHE, "%s-%s-%s-%s.bin" % (h, hashlib.sha1(path.encode()).hexdigest()[:10], _self_hash(), sys.version_info[1]))
     try:
         with open(key, "rb") as f:
             return marshal.loads(f.read()), h
